@@ -608,14 +608,23 @@ def conf_ro(ctx, flavours, fams=BUILDERS, which=None):
                 if st['k'] != 'assign' or st.get('exp', '').startswith('desugar:') and False:
                     continue
                 f = self_field(st['dst'])
-                if f is not None and f != 'method' and not (cyc and f == 'target'):
+                if f is not None and not (cyc and f == 'target'):
+                    # (`method` included: the callback is *called* through &mut, never replaced -- a kernel that swaps it out
+                    # while it recurses leaves the nested kernels with another callback)
                     why.append('writes self.%s at %s' % (f, st['sp']))
                 rv = st['rv']
                 if rv['k'] == 'ref' and rv.get('mut'):
                     f = self_field(rv['pl'])
                     if f is not None and f != 'method':
                         why.append('takes &mut self.%s at %s' % (f, st['sp']))
-        out.append(Obl('CONF', b['q'], b['span'], 'the %s does not modify the search configuration (only `method`%s)' % (kind, ', and `target` in a cycle entry' if cyc else ''), not why,
+            tt = bb['term']
+            if tt['k'] == 'call' and re.search(r'^std::mem::(replace|take|swap)$|^std::option::Option::(take|replace|insert|get_or_insert\w*)$|^std::ptr::(write|replace|swap|read)$', tt['callee']):
+                for a_ in tt['args']:
+                    if a_.get('k') in ('move', 'copy'):
+                        at_ = strip_payload(pv.of_operand(a_))
+                        if isinstance(at_, tuple) and at_ and at_[0] == 'f' and strip_payload(at_[1]) == ('param', 1):
+                            why.append('%s on a field of self at %s' % (tt['callee'].split('::')[-1], tt['sp']))
+        out.append(Obl('CONF', b['q'], b['span'], 'the %s does not modify the search configuration (the callback is only called%s)' % (kind, ', and `target` in a cycle entry' if cyc else ''), not why,
                        '; '.join(sorted(set(why))) if why else 'read-only'))
     return out
 
